@@ -359,3 +359,27 @@ def minz(a, b):
 
 def maxz(a, b):
     return z3.If(a >= b, a, b)
+
+
+class MockBase:
+    """Base class of abstract stand-in objects used by contracts.  An operation the stand-in does not model is an ENGINE LIMIT
+    (Unsupported), never an exception of the code under verification."""
+
+    def __getattr__(self, name):
+        if name.startswith('__') and name.endswith('__'):
+            raise AttributeError(name)
+        raise Unsupported(f'{type(self).__name__} stand-in has no attribute {name!r}')
+
+    def __bool__(self):
+        return True
+
+
+def _unsupported_op(opname):
+    def f(self, *a, **k):
+        raise Unsupported(f'{type(self).__name__} stand-in does not model {opname}')
+    return f
+
+
+for _op in ('add', 'radd', 'sub', 'rsub', 'mul', 'rmul', 'truediv', 'rtruediv', 'floordiv', 'mod', 'pow', 'neg', 'abs', 'lt', 'le', 'gt', 'ge',
+            'and', 'or', 'invert', 'getitem', 'setitem', 'iter', 'len', 'call', 'iadd', 'isub', 'imul', 'itruediv', 'contains'):
+    setattr(MockBase, f'__{_op}__', _unsupported_op(_op))
